@@ -256,7 +256,7 @@ impl shuttle::scheduler::Scheduler for PreemptScheduler {
 }
 
 /// one lock event with the lock already classified
-#[derive(Clone, Debug, PartialEq, Eq)]
+#[derive(Clone, Debug, PartialEq, Eq, serde::Serialize, serde::Deserialize)]
 pub struct Ev {
     pub tid: usize,
     /// 'w' want, 'a' acquired, 'r' released, 'f' thread finished
@@ -274,7 +274,7 @@ impl Ev {
     }
 }
 
-#[derive(Clone, Debug, Default)]
+#[derive(Clone, Debug, Default, serde::Serialize, serde::Deserialize)]
 pub struct RunResult {
     /// all threads joined
     pub completed: bool,
@@ -293,6 +293,8 @@ pub struct RunResult {
 }
 
 struct World {
+    /// the node's clock (advances on every read once the requests start)
+    clock: Arc<SteppingClock>,
     /// the signed invoices of the `invoice x` requests
     invoices: Vec<lightning_signer::invoice::Invoice>,
     /// the harness-side store (what a restart would read back)
@@ -499,26 +501,71 @@ const CHANNEL_VALUE: u64 = 3_000_000;
 const PAY_SAT: u64 = 50_000;
 const PAY_HASH: [u8; 32] = [0x77; 32];
 
-fn make_node_ctx() -> (TestNodeContext, Arc<TrackingPersister>) {
+/// The node's clock in the C20 world: constant during setup; once armed (when the requests start, in
+/// concurrent and sequential runs alike) every read returns a later time, one velocity bucket (300 s)
+/// after the previous read.  Two reads of one request are therefore never equal, and a time that was
+/// read early and used late is older than everything read in between — which is what happens with a
+/// real clock when requests overlap.
+pub struct SteppingClock {
+    base: std::time::Duration,
+    reads: std::sync::atomic::AtomicU64,
+    armed: std::sync::atomic::AtomicBool,
+}
+
+pub const CLOCK_STEP_SECS: u64 = 300;
+
+impl SteppingClock {
+    fn arm(&self) {
+        self.armed.store(true, std::sync::atomic::Ordering::SeqCst);
+    }
+}
+
+impl lightning_signer::SendSync for SteppingClock {}
+
+impl lightning_signer::util::clock::Clock for SteppingClock {
+    fn now(&self) -> std::time::Duration {
+        use std::sync::atomic::Ordering;
+        if self.armed.load(Ordering::SeqCst) {
+            let k = self.reads.fetch_add(1, Ordering::SeqCst) + 1;
+            self.base + std::time::Duration::from_secs(CLOCK_STEP_SECS * k)
+        } else {
+            self.base
+        }
+    }
+}
+
+/// Time advances in every scenario except those with the composite payment requests (`payhv` = validate
+/// + revoke, `paycp*`): they rely on the 60-second keysend approval made during setup, and `payhv`
+/// bundles two protocol requests, so a heartbeat pruning the expired approval between its two halves
+/// would be an artefact of the bundling, not an interleaving of protocol requests.
+fn clock_advances(sc: &Scenario) -> bool {
+    !sc.threads.iter().flatten().any(|q| matches!(q, Req::PayCp(_) | Req::PayCp1(_) | Req::PayHv(_)))
+}
+
+fn make_node_ctx() -> (TestNodeContext, Arc<TrackingPersister>, Arc<SteppingClock>) {
     use lightning_signer::bitcoin::secp256k1::Secp256k1;
     use lightning_signer::node::NodeServices;
     use lightning_signer::policy::simple_validator::SimpleValidatorFactory;
-    use lightning_signer::util::clock::StandardClock;
     let mut seed = [0u8; 32];
     seed.copy_from_slice(&hex::decode(TEST_SEED[1]).unwrap());
     let store = Arc::new(TrackingPersister {
         channels: std::sync::Mutex::new(BTreeSet::new()),
         writes: std::sync::Mutex::new(BTreeMap::new()),
     });
+    let clock = Arc::new(SteppingClock {
+        base: std::time::SystemTime::now().duration_since(std::time::UNIX_EPOCH).unwrap(),
+        reads: std::sync::atomic::AtomicU64::new(0),
+        armed: std::sync::atomic::AtomicBool::new(false),
+    });
     let services = NodeServices {
         validator_factory: Arc::new(SimpleValidatorFactory::new()),
         starting_time_factory: make_genesis_starting_time_factory(TEST_NODE_CONFIG.network),
         persister: store.clone(),
-        clock: Arc::new(StandardClock()),
+        clock: clock.clone(),
         trusted_oracle_pubkeys: vec![],
     };
     let node = Arc::new(Node::new(TEST_NODE_CONFIG, &seed, vec![], services));
-    (TestNodeContext { node, secp_ctx: Secp256k1::signing_only() }, store)
+    (TestNodeContext { node, secp_ctx: Secp256k1::signing_only() }, store, clock)
 }
 
 /// a channel stub created through `new_channel(dbid, peer)`, with matching counterparty keys and the
@@ -533,7 +580,7 @@ fn chan_ctx_by_dbid(node_ctx: &TestNodeContext, dbid: u64) -> TestChannelContext
 }
 
 fn build_world(sc: &Scenario) -> World {
-    let (node_ctx, store) = make_node_ctx();
+    let (node_ctx, store, clock) = make_node_ctx();
     let mut chans = Vec::new();
     let mut commits = Vec::new();
     let mut pay_commits = Vec::new();
@@ -615,7 +662,7 @@ fn build_world(sc: &Scenario) -> World {
     tx_ctx.add_wallet_output(&node_ctx, SpendType::P2wpkh, 2, 999_000);
     let tx = tx_ctx.to_tx();
     let invoices = (0..3u8).map(|x| make_current_test_invoice(x, 10_000 + x as u64)).collect();
-    World { invoices, store, node_ctx, chans, commits, pay_commits, onchain: (tx, tx_ctx), stub, blocks: std::sync::Mutex::new(Vec::new()), coinbase_ctr }
+    World { clock, invoices, store, node_ctx, chans, commits, pay_commits, onchain: (tx, tx_ctx), stub, blocks: std::sync::Mutex::new(Vec::new()), coinbase_ctr }
 }
 
 fn status_str<T>(r: &Result<T, lightning_signer::util::status::Status>) -> String {
@@ -1034,6 +1081,67 @@ fn scheduler_run<F: Fn() + Send + Sync + 'static>(sched: Sched, seed: u64, ps: &
 /// Run the scenario.  `order = None`: one thread per request list under the given scheduler, tap on.
 /// `order = Some(seq)`: sequentially in one thread, `seq` = thread index of each successive request.
 pub fn run_scenario(sc: &Scenario, sched: Sched, seed: u64, order: Option<Vec<usize>>) -> RunResult {
+    if std::env::var("VERIF_C20_NOFORK").is_ok() {
+        return run_scenario_inproc(sc, sched, seed, order);
+    }
+    // Every run happens in a forked child (the harness is single-threaded: shuttle's threads are
+    // coroutines): a run that ABORTS the process — a panic while another panic unwinds, e.g. an
+    // arithmetic overflow under a lock followed by a destructor that needs the same lock — is an
+    // outcome to report, not the end of the check.
+    unsafe {
+        let mut fds = [0i32; 2];
+        if libc::pipe(fds.as_mut_ptr()) != 0 {
+            return run_scenario_inproc(sc, sched, seed, order);
+        }
+        let pid = libc::fork();
+        if pid < 0 {
+            libc::close(fds[0]);
+            libc::close(fds[1]);
+            return run_scenario_inproc(sc, sched, seed, order);
+        }
+        if pid == 0 {
+            libc::close(fds[0]);
+            let r = run_scenario_inproc(sc, sched, seed, order);
+            let js = serde_json::to_vec(&r).unwrap_or_default();
+            let mut off = 0usize;
+            while off < js.len() {
+                let n = libc::write(fds[1], js[off..].as_ptr() as *const libc::c_void, js.len() - off);
+                if n <= 0 {
+                    break;
+                }
+                off += n as usize;
+            }
+            libc::close(fds[1]);
+            libc::_exit(0);
+        }
+        libc::close(fds[1]);
+        let mut buf = Vec::new();
+        let mut chunk = [0u8; 65536];
+        loop {
+            let n = libc::read(fds[0], chunk.as_mut_ptr() as *mut libc::c_void, chunk.len());
+            if n <= 0 {
+                break;
+            }
+            buf.extend_from_slice(&chunk[..n as usize]);
+        }
+        libc::close(fds[0]);
+        let mut status = 0i32;
+        libc::waitpid(pid, &mut status, 0);
+        match serde_json::from_slice::<RunResult>(&buf) {
+            Ok(r) if libc::WIFEXITED(status) && libc::WEXITSTATUS(status) == 0 => r,
+            _ => RunResult {
+                completed: false,
+                failure: Some(format!(
+                    "process aborted (wait status {:#x}): a request panicked while another panic was unwinding",
+                    status
+                )),
+                ..Default::default()
+            },
+        }
+    }
+}
+
+fn run_scenario_inproc(sc: &Scenario, sched: Sched, seed: u64, order: Option<Vec<usize>>) -> RunResult {
     let shared: Arc<std::sync::Mutex<RunResult>> = Arc::new(std::sync::Mutex::new(RunResult::default()));
     let classes: Arc<std::sync::Mutex<HashMap<usize, String>>> = Arc::new(std::sync::Mutex::new(HashMap::new()));
     let sc2 = sc.clone();
@@ -1051,6 +1159,9 @@ pub fn run_scenario(sc: &Scenario, sched: Sched, seed: u64, order: Option<Vec<us
         let w = Arc::new(build_world(&sc2));
         if concurrent {
             *cl2.lock().unwrap() = classify(&w);
+            if clock_advances(&sc2) {
+                w.clock.arm();
+            }
             // probes above added a keysend/invoice: rebuild nothing, they are part of every run
             // (sequential runs do the same probe below so that the states are comparable)
             tap_enable(true);
@@ -1078,6 +1189,9 @@ pub fn run_scenario(sc: &Scenario, sched: Sched, seed: u64, order: Option<Vec<us
             tap_enable(false);
         } else {
             let _ = classify(&w);
+            if clock_advances(&sc2) {
+                w.clock.arm();
+            }
             let mut next = vec![0usize; sc2.threads.len()];
             for &tid in order.as_ref().unwrap() {
                 let i = next[tid];
@@ -1479,7 +1593,8 @@ impl C20 {
         for e in &r.trace {
             ops.push(e.line());
         }
-        ops.push("end".into());
+        let aborted = r.failure.as_deref().map(|m| m.starts_with("process aborted")).unwrap_or(false);
+        ops.push(if aborted { "end abort".into() } else { "end".into() });
         self.lockdep(&sc, &r);
         let (points, completed) = (r.points, r.completed);
         self.run_cache.borrow_mut().insert(ops.join("\n"), r);
@@ -1610,7 +1725,7 @@ impl C20 {
         let n_ops = ops.len();
         // one output line per op: everything before `end` is "ok"
         for l in ops {
-            if l == "end" {
+            if l.starts_with("end") {
                 break;
             }
             co.out.push("ok".into());
@@ -1678,6 +1793,15 @@ impl C20 {
                     desc: format!("shuttle: {} | wait-for cycle: {}", msg.lines().next().unwrap_or(""), desc),
                     at: n_ops - 1,
                 });
+            } else if msg.starts_with("process aborted") {
+                // the process died: a panic while another panic was unwinding (no lock trace survives)
+                verdict = "abort".to_string();
+                co.tags.insert("abort".into());
+                co.violations.push(Violation {
+                    kind: "abort".into(),
+                    desc: format!("the signer process aborts under this schedule: {}", msg),
+                    at: n_ops - 1,
+                });
             } else {
                 verdict = "panic".to_string();
                 co.tags.insert("panic".into());
@@ -1694,7 +1818,7 @@ impl C20 {
         if let Some(d) = slot_descending(&r.trace, nthreads) {
             co.violations.push(Violation { kind: "lock-order:slot-descending".into(), desc: d, at: n_ops - 1 });
         }
-        let truncated = !ops.iter().any(|l| l == "end");
+        let truncated = !ops.iter().any(|l| l.starts_with("end"));
         if !(embedded == observed.as_slice() || (truncated && observed.starts_with(embedded))) {
             // a hand-edited / shrunk case whose embedded trace is not the trace of its scenario
             if std::env::var("VERIF_C20_DET").is_ok() {
@@ -1837,6 +1961,15 @@ impl Group for C20 {
             p(1, true, Req::Forget(9), Req::Forget(9)),
             p(1, false, Req::Invoice(1), Req::Invoice(1)),
             p(1, false, Req::Keysend(1), Req::Keysend(1)),
+            // approvals and fee control with a clock that advances on every read: a time read before the
+            // node-state lock and used after another request's later time must not break the windows
+            p(1, false, Req::Keysend(1), Req::Keysend(2)),
+            p(1, false, Req::Invoice(1), Req::Invoice(2)),
+            p(1, false, Req::Invoice(1), Req::Keysend(2)),
+            p(1, false, Req::Keysend(1), Req::Heartbeat),
+            p(1, false, Req::Invoice(1), Req::Heartbeat),
+            p(1, false, Req::Keysend(1), Req::Onchain),
+            p(1, false, Req::Invoice(1), Req::Onchain),
             p(1, true, Req::SetupChan, Req::SetupChan),
             p(1, false, Req::Forget(0), Req::Forget(0)),
             // id reuse
